@@ -44,14 +44,34 @@ thread_local! {
     pub static REJECTED: std::cell::RefCell<Vec<(String, String)>> = std::cell::RefCell::new(Vec::new());
 }
 
+thread_local! {
+    /// generated programs the implementation loaded (text, exported AST), for the end-of-run comparison with the model's loader
+    pub static ACCEPTED: std::cell::RefCell<Vec<(String, crate::sexp::Sexp)>> = std::cell::RefCell::new(Vec::new());
+}
+
 /// The generators mean their programs to be accepted; when the implementation rejects one, the model's loader decides
 /// whether that is the generator's fault (both reject: counted) or a difference between implementation and model.
 pub fn check_rejected(rep: &mut Report) {
     let items: Vec<(String, String)> = REJECTED.with(|l| std::mem::take(&mut *l.borrow_mut()));
-    if items.is_empty() {
+    let accepted: Vec<(String, crate::sexp::Sexp)> = ACCEPTED.with(|l| std::mem::take(&mut *l.borrow_mut()));
+    if items.is_empty() && accepted.is_empty() {
         return;
     }
     let mut drv = crate::driver::Driver::spawn();
+    // The execution models run on the AST exported from the implementation's own parser and checker; a change there that
+    // alters the AST consistently would move implementation and model together. So the text of (up to 100) accepted
+    // programs is also loaded by the MODEL's parser and checker, and the two resolved ASTs must be equal.
+    for (text, ast) in accepted {
+        rep.alive();
+        let verdict = crate::props::c06::model_load(&mut drv, &text);
+        let want = crate::sexp::tagged("loaded", vec![ast]);
+        if verdict != want {
+            rep.fail("disagreement", "the resolved AST of a generated program differs between the implementation's loader and the model's", false,
+                serde_json::json!({"tsg": text, "model": verdict.pretty().chars().take(3000).collect::<String>(), "implementation": want.pretty().chars().take(3000).collect::<String>()}));
+        } else {
+            rep.count("accepted-program-ast-equals-model-loader");
+        }
+    }
     for (text, msg) in items {
         rep.alive();
         let verdict = crate::props::c06::model_load(&mut drv, &text);
@@ -71,6 +91,13 @@ pub fn gen_loaded(rep: &mut Report, r: &mut Rng, pool: &[Pattern], opts: &Opts) 
         match load(&program.text) {
             Ok(Ok(file)) => {
                 rep.count("programs-accepted");
+                // kept for the end of the run: the model's loader must produce the same resolved AST (see `check_rejected`)
+                ACCEPTED.with(|l| {
+                    let mut l = l.borrow_mut();
+                    if l.len() < 100 {
+                        l.push((program.text.clone(), crate::astx::file(&file)));
+                    }
+                });
                 for f in &program.features {
                     rep.count(&format!("feature:{}", f));
                 }
